@@ -139,7 +139,8 @@ CHECKS["C11"] = {
             "are placed where their kind is accepted, the elements of the form enumerate every object exactly once and in document order, nested in the element of "
             "their parent (C11_every_object_once_in_order, C11_subtree_names, C11_widget_children_in_order, C11_layout_items_in_order); a static separator has no "
             "element of its own; the <addaction> list is the action-like children in declaration order, or the explicit `actions:` list exactly as written "
-            "(C11_addactions_in_order, C11_explicit_actions_as_written); well-placed documents raise no placement diagnostic (C11_well_placed_no_error). Tie: the "
+            "(C11_addactions_in_order, C11_explicit_actions_as_written); well-placed documents raise no placement diagnostic (C11_well_placed_no_error); the flat pre-order vector with child indices built by flatten "
+            "(ObjectTree's storage) represents the source tree: every node's entry lists exactly its children's entries, in order (C11_flat_vector_represents_tree). Tie: the "
             "element tree of the real .ui and the placement diagnostics (kind, object, order) vs the model's form_of on generated object trees of every kind, one "
             "third with misplaced kinds. Independent oracle on the real output: a parallel walk of the source tree and the .ui (class, name, marker property, "
             "<item> wrapping, sibling order, <addaction> list, object count).",
@@ -185,7 +186,8 @@ CHECKS["C08"] = {
     "text": "Proofs (closed under the global context) over model/Uigen.v, where every binding map is a list in an ARBITRARY order (the hash order): for any two orders "
             "of the properties, callbacks and attached bindings of an object with distinct names, the form, the consumed attached bindings, the header bindings and "
             "callbacks are EQUAL and the diagnostics are a permutation of each other (C08_order_irrelevant, lifted to documents by C08_doc_order_irrelevant); the key "
-            "lemma -- a list sorted by distinct keys is determined by its elements (C08_sorted_output_unique, via commuting insertions); nothing survives from one "
+            "lemma -- a list sorted by distinct keys is determined by its elements (C08_sorted_output_unique, via commuting insertions); the same for the members of a "
+            "grouped / gadget value listed in any order (C08_members_order_irrelevant); nothing survives from one "
             "document to the next (C08_history_free). Tie: the model vs the real outputs on the wide documents. On the implementation itself: every document is "
             "translated R times (R=10 quick, 30 thorough), each round in a different order and spread over fresh processes; .ui bytes, header bytes and the multiset "
             "of diagnostics (message, kind, range, labels) must coincide -- wide generated documents (up to 9 properties, 5 group members, 3 handlers per object), "
